@@ -508,8 +508,45 @@ def check_b3(lib, B3):
     B3.floor('unsigned subtractions in lifecycle/sort/control-message/argument-rendering code', n, 20)
 
 
+def message_sized_fields(lib):
+    """{(owner ADT, field)}: integer fields (wider than 16 bit) of adlt structs that are stored from values decoded out of
+    message bytes - by a field store or as a constructor operand - anywhere in the library.  One level of field taint, so
+    that an allocation sized by `self.file_size` in another function than the one that decoded it is still seen."""
+    out = {}
+    for b in lib:
+        hits = []
+        for blk in b.blocks:
+            if blk.cleanup:
+                continue
+            for s in blk.stmts:
+                if s.k != 'assign':
+                    continue
+                fl = [e for e in s.place.p if e['k'] == 'f']
+                if fl and fl[-1].get('o', '').startswith('adlt') and s.place.p[-1] is fl[-1] and re.search(r'^(u32|u64|usize|i32|i64|isize)$', s.place.t or ''):
+                    hits.append((blk, s, fl[-1]['o'], fl[-1]['n'], s.rv_operands()))
+                elif s.rv['k'] == 'agg' and s.rv.get('ak') == 'adt' and (s.rv.get('adt') or '').startswith('adlt') and s.rv.get('fields'):
+                    for nm, o in zip(s.rv['fields'], s.rv['ops']):
+                        oo = Operand(o)
+                        if re.search(r'^(u32|u64|usize|i32|i64|isize)$', oo.ty or ''):
+                            hits.append((blk, s, s.rv['adt'], nm, [oo]))
+        if not hits:
+            continue
+        pr = Prov(CFG(b))
+        for (blk, s, owner, nm, ops) in hits:
+            toks = set()
+            for o in ops:
+                toks |= pr.operand(o, at=blk.i)
+            dec = [c for c in calls_in(toks) if DECODE.search(c)]
+            wide = any(tk[0] == 'calldest' and DECODE.search(tk[1]) and (re.search(r'\b(u32|u64|i32|i64|usize|isize|u128|i128)\b', tk[2]) or not re.search(r'\b(u8|i8|u16|i16)\b', tk[2])) for tk in toks)
+            if dec and wide:
+                out.setdefault((owner, nm), b.loc(s.sp))
+    return out
+
+
 def check_b4(F, lib, B4):
     n = 0
+    tainted = message_sized_fields(lib)
+    B4.notes.append('message-sized fields: %s' % sorted('%s.%s' % (o.split('::')[-1], f) for (o, f) in tainted))
     for b in lib:
         sites = [blk for blk in b.calls() if ALLOC.search(blk.term.callee.path)]
         if not sites:
@@ -526,10 +563,12 @@ def check_b4(F, lib, B4):
             for a in size_args:
                 toks |= pr.operand(a, at=blk.i)
             dec = [c for c in calls_in(toks) if DECODE.search(c)]
-            if not dec:
+            fld = [tk for tk in toks if tk[0] == 'fld' and (tk[1], tk[2]) in tainted]
+            if not dec and not fld:
                 continue
             # widths of the decode results inside the provenance slice of the size
-            wide = False
+            wide = bool(fld)
+            dec = dec + ['field %s.%s (stored from message bytes at %s)' % (tk[1].split('::')[-1], tk[2], tainted[(tk[1], tk[2])]) for tk in fld]
             for tk in toks:
                 if tk[0] == 'calldest' and DECODE.search(tk[1]):
                     ty = tk[2]
